@@ -595,6 +595,132 @@ def sr_by_column(inst, superreads):
 
 # ------------------------------------------------------------------------------------------------
 
+
+# ------------------------------------------------------------------------------------------------
+# the pedigree glue: numeric ids != insertion order, relationships in any order, deep pedigrees, fractional likelihoods
+# ------------------------------------------------------------------------------------------------
+
+PED_SHAPES = {   # roles; trios in role space (father, mother, child)
+    "single": (1, []), "two": (2, []), "trio": (3, [(0, 1, 2)]), "quartet": (4, [(0, 1, 2), (0, 1, 3)]),
+    "trio+unrelated": (4, [(0, 1, 2)]), "three-generations": (5, [(0, 1, 2), (2, 3, 4)]),
+    "three-children": (5, [(0, 1, 2), (0, 1, 3), (0, 1, 4)]),
+    "three-generations-two-grandchildren": (6, [(0, 1, 2), (2, 3, 4), (2, 3, 5)]),
+}
+
+
+def gen_ped_case(rng):
+    shape = rng.choice(list(PED_SHAPES))
+    n, rtrios = PED_SHAPES[shape]
+    order = rng.sample(range(n), n)                  # order[k] = role added k-th  => index of role = position
+    index_of_role = {r: k for k, r in enumerate(order)}
+    num = rng.sample(range(0, 64), n)                # numeric id of INDEX k (arbitrary, != index in general)
+    rel_order = rng.sample(rtrios, len(rtrios))      # relationships in any order (grandchild's trio may come first)
+    trios = [[index_of_role[f], index_of_role[m], index_of_role[c]] for f, m, c in rel_order]
+    ncols = rng.randrange(1, 4 if len(trios) < 3 else 2)
+    distrust = rng.random() < 0.6
+    den = rng.choice([1, 4]) if distrust else 1
+    truth = {}
+    for r in range(n):
+        truth[r] = [[rng.randrange(2) for _ in range(ncols)] for _ in range(2)]
+    for f, m, c in rtrios:
+        truth[c] = [list(truth[f][rng.randrange(2)]), list(truth[m][rng.randrange(2)])]
+    gts, glnum = [], []
+    for k in range(n):
+        r = order[k]
+        gts.append([truth[r][0][c] + truth[r][1][c] for c in range(ncols)])
+        glnum.append([[rng.choice([0, 0, 1, 2, 3, 4, 5, 7, 10, 13, 40, 41]) * (1 if den == 4 else 1) for _ in range(3)]
+                      for c in range(ncols)])
+    max_reads = 4 if len(trios) <= 1 else 3
+    reads = []
+    for _ in range(rng.randrange(1, max_reads + 1)):
+        first = rng.randrange(ncols)
+        last = min(ncols - 1, first + rng.choice([0, 1, 2]))
+        k = rng.randrange(n)
+        h = rng.randrange(2)
+        entries = []
+        for c in range(first, last + 1):
+            if c not in (first, last) and rng.random() < 0.3:
+                continue
+            a = truth[order[k]][h][c]
+            if rng.random() < 0.2:
+                a = 1 - a
+            entries.append([c, a, rng.choice([1, 2, 5, 9])])
+        reads.append({"ind": k, "first": first, "last": last, "entries": entries})
+    reads.sort(key=lambda r: r["first"])
+    # the calls: individuals in index order, each relationship somewhere after its three members
+    calls = [["ind", k] for k in range(n)]
+    for ti, tr in enumerate(trios):
+        pos = max(i for i, cl in enumerate(calls) if cl[0] == "ind" and cl[1] in tr) + 1
+        last_rel = max([i for i, cl in enumerate(calls) if cl[0] == "rel"] + [-1]) + 1   # keep the triple order
+        calls.insert(rng.randrange(max(pos, last_rel), len(calls) + 1), ["rel", ti])
+    return {"stream": "pedigree", "shape": shape, "num": num, "trios": trios, "ncols": ncols, "distrust": distrust,
+            "den": den, "gts": gts, "glnum": glnum, "reads": reads, "calls": calls,
+            "recomb": [rng.choice([0, 1, 3, 8]) for _ in range(ncols)]}
+
+
+def ped_py_inst(case):
+    """the solver's instance in index space, computed here (index = position of the add_individual call)"""
+    n = len(case["num"])
+    if case["distrust"]:
+        geno = [[[x // case["den"] for x in case["glnum"][k][c]] for c in range(case["ncols"])] for k in range(n)]
+    else:
+        geno = [[[0 if j == case["gts"][k][c] else None for j in range(3)] for c in range(case["ncols"])] for k in range(n)]
+    return {"ncols": case["ncols"], "reads": case["reads"], "nind": n, "trios": case["trios"], "geno": geno,
+            "recomb": case["recomb"]}
+
+
+def run_ped_impl(case):
+    from whatshap.core import Read, ReadSet, Pedigree, PedigreeDPTable, Genotype, PhredGenotypeLikelihoods
+    n = len(case["num"])
+    from whatshap.core import NumericSampleIds
+    of_num = {case["num"][k]: f"s{k}" for k in range(n)}
+    names = NumericSampleIds()          # hands out 0, 1, 2, … in the order of first use: burn the numbers in between
+    for v in range(max(case["num"]) + 1):
+        assert names[of_num.get(v, f"unused{v}")] == v
+    rs = ReadSet()
+    for j, r in enumerate(case["reads"]):
+        rd = Read(f"read{j:04d}", 50, 0, case["num"][r["ind"]])
+        for c, a, w in r["entries"]:
+            rd.add_variant((c + 1) * 10, a, w)
+        rs.add(rd)
+    rs.sort()
+    order = [int(rd.name[4:]) for rd in rs]
+    ped = Pedigree(names)
+    GT = {0: [0, 0], 1: [0, 1], 2: [1, 1]}
+    for kind, x in case["calls"]:
+        if kind == "ind":
+            gts = [Genotype(GT[g]) for g in case["gts"][x]]
+            gls = [PhredGenotypeLikelihoods([v / case["den"] for v in t]) for t in case["glnum"][x]] if case["distrust"] else None
+            ped.add_individual(f"s{x}", gts, gls)
+        else:
+            f, m, c = case["trios"][x]
+            ped.add_relationship(f"s{f}", f"s{m}", f"s{c}")
+    text = str(ped)
+    obs = {"len": len(ped), "variant_count": ped.variant_count,
+           "ids": [int(t.split(",")[1]) for t in text.split("individuals (index,id):")[1].split("\n")[0].split()],
+           "triples": [[int(v) for v in t.strip("()").split(",")]
+                       for t in text.split("triples by index (father,mother,child):")[1].split("\n")[0].split()],
+           "genotype_by_id": [[ped.genotype(f"s{k}", c).get_index() if hasattr(ped.genotype(f"s{k}", c), "get_index")
+                               else sum(ped.genotype(f"s{k}", c).as_vector()) for c in range(case["ncols"])] for k in range(n)],
+           "gl_by_id": [[(lambda g: None if g is None else [round(v * case["den"]) for v in g])(ped.genotype_likelihoods(f"s{k}", c))
+                         for c in range(case["ncols"])] for k in range(n)]}
+    positions = [(c + 1) * 10 for c in range(case["ncols"])]
+    out = {"order": order, "ped": obs,
+           "raw_reads": [{"sample": rd.sample_id, "variants": [[v.position, v.allele, v.quality] for v in rd]} for rd in rs]}
+    try:
+        dp = PedigreeDPTable(rs, case["recomb"], ped, case["distrust"], positions)
+    except RuntimeError as e:
+        if "Mendelian conflict" not in str(e):
+            raise
+        out["error"] = "mendelian-conflict"
+        return out
+    sr = query(dp, "sr", n)
+    superreads, _tv = dp.get_super_reads()
+    out.update(cost=dp.get_optimal_cost(), partition=list(dp.get_optimal_partitioning()), tau=sr["tau"],
+               superreads=sr["superreads"], sr_ids=[[r.sample_id for r in superreads[i]] for i in range(n)])
+    return out
+
+
 def run(ctx):
     rng = ctx.rng
     pending = []   # one entry per (table, view of its answers): dict(inst, impl, raw, brute, case, req={op: index}, …)
@@ -805,11 +931,99 @@ def run(ctx):
             else:
                 ctx.dist("u32_beyond_bound", "still exact")
 
+
+    def run_ped(cases):
+        """stream `pedigree`: the API level (Model/C01Pedigree.lean, op c01.pedigree)"""
+        todo = []
+        for case in cases:
+            ctx.inflight(case)
+            impl = run_ped_impl(case)
+            ctx.evaluated()
+            n = len(case["num"])
+            inst = dict(ped_py_inst(case)); inst["reads"] = [inst["reads"][k] for k in impl["order"]]
+            ops = [["ind", case["num"][x], case["gts"][x], case["glnum"][x] if case["distrust"] else [None] * case["ncols"]]
+                   if kind == "ind" else ["rel"] + [case["num"][v] for v in case["trios"][x]] for kind, x in case["calls"]]
+            probes = []
+            for c in range(case["ncols"]):
+                act = [r for r in inst["reads"] if r["first"] <= c <= r["last"]]
+                probes.append({"c": c, "p": (c + 1) * 10, "bits": [rng.random() < 0.5 for _ in act],
+                               "t": rng.randrange(4 ** len(case["trios"]))})
+            todo.append((case, impl, inst, {"op": "c01.pedigree", "ops": ops, "den": case["den"], "reads": impl["raw_reads"],
+                                            "positions": [(c + 1) * 10 for c in range(case["ncols"])], "recomb": case["recomb"],
+                                            "distrust": case["distrust"], "ask": case["num"], "nvar": case["ncols"],
+                                            "probe": probes}))
+            ctx.dist("ped_shape", case["shape"]); ctx.dist("ped_mode", "distrust den=%d" % case["den"] if case["distrust"] else "trusted")
+            ctx.dist("ped_ids_equal_indices", case["num"] == list(range(n)))
+        if not todo:
+            return
+        a1 = ctx.model.ask_many([t[3] for t in todo])
+        reqs2 = []
+        for (case, impl, inst, rq), a in zip(todo, a1):
+            mi = model_inst(inst)
+            reqs2.append({"op": "c01.brute", "inst": mi})
+            reqs2.append({"op": "c01.ckpt", "inst": a.get("inst") or mi, "queries": ["cost"]})
+            reqs2.append({"op": "c01.eval", "inst": mi, "beta": [bool(x) for x in impl.get("partition", [])],
+                          "tau": impl.get("tau", [0] * case["ncols"])})
+        a2 = ask_bounded(ctx.model, reqs2)
+        for k, ((case, impl, inst, rq), a) in enumerate(zip(todo, a1)):
+            n = len(case["num"])
+            mi = model_inst(inst)
+            brute, ck, ev = a2[3 * k], a2[3 * k + 1], a2[3 * k + 2]
+            mp, ip = a.get("ped") or {}, impl["ped"]
+            want = {"ids": case["num"], "triples": case["trios"], "index_of": list(range(n)),
+                    "genotype_by_id": case["gts"],
+                    "gl_by_id": case["glnum"] if case["distrust"] else [[None] * case["ncols"]] * n}
+            # the real object's accessors vs the model's object vs what was put in
+            if ip["ids"] != mp.get("ids") or ip["triples"] != mp.get("triples") or ip["len"] != len(mp.get("ids") or []) \
+                    or ip["genotype_by_id"] != mp.get("genotype_by_id") or ip["gl_by_id"] != mp.get("gl_by_id"):
+                ctx.disagree("c01.pedigree(object state: ids / index triples / accessors by id)", case, ip, mp)
+            if any(mp.get(f) != want[f] for f in want):
+                ctx.disagree("c01.pedigree(model object vs the data of the calls)", case, want, mp)
+            if a.get("inst") != mi:
+                ctx.disagree("c01.pedigree(resolved instance)", case, mi, a.get("inst"))
+            for pr in a.get("probes") or []:
+                if pr["glue"] != pr["inst"]:
+                    ctx.disagree("c01.pedigree(column cost read off the objects vs colCost of the resolved instance)", case,
+                                 pr["inst"], pr["glue"])
+            if "error" in impl:
+                if brute["cost"] is not None:
+                    ctx.fail(f"solver raised 'Mendelian conflict' but a feasible solution exists (true minimum {brute['cost']})",
+                             case, key="spurious-conflict")
+                if ck.get("cost") is not None:
+                    ctx.disagree("c01.pedigree(cost)", case, "mendelian-conflict", ck.get("cost"))
+                continue
+            shown = {f: impl[f] for f in ("cost", "partition", "tau", "superreads")}
+            if brute["cost"] != impl["cost"]:
+                ctx.fail(f"reported cost {impl['cost']} but the true minimum (plain enumeration) is {brute['cost']} "
+                         f"[pedigree {case['shape']}, numeric ids {case['num']}]", {**case, "impl": shown}, key="not-optimal")
+            if ev["cost"] != impl["cost"]:
+                ctx.fail(f"returned partition/transmission evaluate to {ev['cost']} under the MEC objective, reported cost is "
+                         f"{impl['cost']} [pedigree {case['shape']}, numeric ids {case['num']}]", {**case, "impl": shown},
+                         key="witness-cost")
+            for f in check_superreads({**mi, "mode": "distrust" if case["distrust"] else "trusted"}, impl):
+                ctx.fail("super-read: " + f, {**case, "impl": shown}, key="nontie-allele")
+            if impl["sr_ids"] != [[case["num"][i]] * 2 for i in range(n)]:
+                ctx.disagree("c01.pedigree(index_to_id: sample ids of the super reads)", case,
+                             impl["sr_ids"], [[case["num"][i]] * 2 for i in range(n)])
+            isr = sr_by_column(mi, impl["superreads"])
+            if ck.get("cost") != impl["cost"]:
+                ctx.disagree("c01.pedigree(cost of the resolved instance)", case, impl["cost"], ck.get("cost"))
+            if ck.get("path") is not None and (ck["tau"] != impl["tau"] or [bool(x) for x in ck["beta"]] !=
+                                               [bool(x) for x in impl["partition"]] or ck["superreads"] != isr):
+                ctx.disagree("c01.pedigree(witness of the resolved instance)", case,
+                             {"partition": impl["partition"], "tau": impl["tau"], "superreads": isr},
+                             {"partition": ck["beta"], "tau": ck["tau"], "superreads": ck["superreads"]})
+            ctx.nontrivial(json.dumps(case, sort_keys=True))
+            ctx.validated()
+
     # ---- replay / corpus
     cases = [c for _, c in ctx.corpus()]
     if ctx.replay:
         cases = [json.load(open(ctx.replay))["case"]]
     for c in cases:
+        if c.get("stream") == "pedigree":
+            run_ped([c])
+            continue
         inst = c["instance"]
         if c.get("stream") == "u32":
             run_u32([inst])
@@ -899,6 +1113,9 @@ def run(ctx):
     # ---- 32-bit arithmetic: cost sums around 2^32.  Below the bound `ubAll < UINT_MAX` (theorem `no_overflow`) the
     # real cost must be the exact optimum; everywhere it must be what the wrap-around model `dpCost32`/`throws32` says
     run_u32([gen_big(rng) for _ in range((150 if ctx.quick else 3000) * ctx.scale)])
+
+    # ---- the pedigree glue (ids != indices, any insertion / relationship order, deep pedigrees, fractional likelihoods)
+    run_ped([gen_ped_case(rng) for _ in range((120 if ctx.quick else 3000) * ctx.scale)])
 
     # ---- table-based column cost == direct column cost (the incremental table of the code)
     tab_reqs, tab_meta = [], []
